@@ -256,6 +256,11 @@ func Bounded(body func() string, opt Options) *Stats {
 					if opt.Allow != nil && x.Kinds[i] == "sched" && !opt.Allow(x.Enabled[i], alt) {
 						continue
 					}
+					if len(next) >= 2000000 {
+						st.Cap = "pending-sequence cap 2000000 (the sequences of the next level do not fit a sane amount of memory)"
+						st.Wall = time.Since(t0).Seconds()
+						return st
+					}
 					np := make([]int, i+1)
 					copy(np, x.Choices[:i])
 					np[i] = alt
@@ -689,10 +694,56 @@ func DPOR(body func() string, opt Options) *Stats {
 }
 
 // Naive explores every choice sequence without any reduction (for tiny harnesses and for validating DPOR).
+// Naive is the reduction-free search: every choice sequence, no bound on the number of deviations. It is a
+// depth-first search over an explicit stack (the level-by-level order of Bounded would have to keep every
+// sequence of the next level in memory); the stack is capped as well, so that a program that turns out much
+// larger than its harness expected ends the search with a cap instead of exhausting the machine's memory.
 func Naive(body func() string, opt Options) *Stats {
-	o := opt
-	o.MaxBound = 1 << 30
-	st := Bounded(body, o)
-	st.Mode = "naive"
+	st := newStats("naive")
+	t0 := time.Now()
+	const maxPending = 2000000
+	stack := [][]int{nil}
+	for len(stack) > 0 {
+		if opt.MaxExecs > 0 && st.Execs >= opt.MaxExecs {
+			st.Cap = fmt.Sprintf("execution cap %d", opt.MaxExecs)
+			break
+		}
+		if opt.Deadline > 0 && time.Since(t0) > opt.Deadline {
+			st.Cap = fmt.Sprintf("time cap %s", opt.Deadline)
+			break
+		}
+		if len(stack) > maxPending {
+			st.Cap = fmt.Sprintf("pending-sequence cap %d", maxPending)
+			break
+		}
+		prefix := stack[len(stack)-1]
+		stack = stack[:len(stack)-1]
+		x := RunOnce(body, prefix)
+		st.add(x)
+		st.NewStates += int64(len(x.Ns)-len(prefix)) + 1
+		// children in reverse order, so that the sequence with the earliest deviation is explored first
+		for i := len(x.Ns) - 1; i >= len(prefix); i-- {
+			if opt.SchedOnly && x.Kinds[i] != "sched" {
+				continue
+			}
+			if opt.DataOnly && x.Kinds[i] == "sched" {
+				continue
+			}
+			for alt := x.Ns[i] - 1; alt >= 1; alt-- {
+				if opt.Allow != nil && x.Kinds[i] == "sched" && !opt.Allow(x.Enabled[i], alt) {
+					continue
+				}
+				np := make([]int, i+1)
+				copy(np, x.Choices[:i])
+				np[i] = alt
+				stack = append(stack, np)
+			}
+		}
+	}
+	if st.Cap == "" {
+		st.Exhaustive = true
+		st.BoundCompleted = 1 << 30
+	}
+	st.Wall = time.Since(t0).Seconds()
 	return st
 }
